@@ -636,7 +636,7 @@ class C06(core.Check):
         "Theorems: bracket-layer and schema-layer round trip of the parser on every dictionary with semicolon-free "
         "statements, structural facts of the assembled dictionary, the text of every %.8f number (reads back to within half a "
         "unit of the 8th decimal, well-formed), the tokenizer reads back canonical texts (T_C06_lex_unlex); that it ignores the real file's layout is validated by the correspondence; "
-        "str(float) of grading values and VTK coordinates is generated by the model and validated (accepted tokens are within half an ulp: proved; that the generator's text is accepted: proved for positive doubles in fixed notation (for x >= 1 unconditionally, for x < 1 given 10^(dp-1) <= x), otherwise a run-time check)."
+        "str(float) of grading values and VTK coordinates is generated by the model and validated (accepted tokens are within half an ulp: proved; that the generator's text is accepted: proved for doubles of either sign in fixed notation with |x| >= 1, for 0 < x < 1 given 10^(dp-1) <= x; exponent layouts and the rest: run-time check)."
     )
 
     def gen_cases(self, rng: random.Random, tier: str) -> List[dict]:
